@@ -41,8 +41,9 @@ RULE = (
     "array border),int_far(beyond N/2),sub,sub_far,half} x shape class{even/odd, square/non-square, 12..48} with dtype and image "
     "family (band-limited complex-normal / band-limited Gaussian-envelope random-phase / arbitrary noise image rolled by an "
     "integer) rotated over the repetitions; every numpy case also exercises return_shifted_image, fft_input, fft_output and "
-    "max_shift (radius >= |s|+2.5 px, and a radius within 0..1 px of the admitted shift); buffer-reuse histories for both backends (the same "
-    "array/tensor storage refilled in place between 7..10 calls: reference only, moving only, both, reference := moving, swapped roles, "
+    "max_shift (radius >= |s|+2.5 px, and a radius within 0..1 px of the admitted shift), and upsample_factor / max_shift passed as every accepted scalar type "
+    "(Python int/float, np.int32/int64/float64 scalars, elements of integer arrays, 0-d arrays, 0-d tensors) which must reproduce the Python-int result; buffer-reuse histories for both backends (the same "
+    "array/tensor objects refilled between 7..10 calls through copy_, .data writes, NumPy memory aliased by torch.from_numpy, or views of a larger buffer: reference only, moving only, both, reference := moving, swapped roles, "
     "interleaved calls on other tensors of the same / another shape; every call judged against its own truth); plus call-site cases (tomography stack alignment, direct-ptychography reference/pairwise shifts). "
     "non-trivial = applied shift != 0; distinct = (kind, backend, factor, shift class, shape class, dtype, family)"
 )
@@ -78,6 +79,8 @@ REQUIRED_COUNTERS = [
     "eval:fft_variant_disagrees_int_f64",
     "eval:shift_error_near_search_radius_sub_up8",
     "eval:history_shift_error_int_f32",
+    "eval:scalar_form_changes_result_int_f64",
+    "eval:scalar_form_changes_result_int_f32",
     "eval:history_shift_error_sub_up8",
 ]
 # the call-site sub-monitors (tomography / direct-ptychography helpers, partly private names) are additional observability:
@@ -100,7 +103,8 @@ def plan(tier, seed):
             k += 1
             fam = "env" if (be == "torch" and up <= 2 and sc == "sub") else ["gauss", "env"][(k + rep) % 2]
             dt = (["float64", "float32"] if be == "numpy" else ["float32", "float64"])[(k // 2 + rep) % 2]
-            specs.append({"kind": "history", "backend": be, "up": up, "sclass": sc, "shape": SHAPES[(k + rep) % len(SHAPES)], "dtype": dt, "family": fam})
+            al = ["copy_", "numpy_alias", "data_copy", "data_setitem", "view_of_big"][(k + 2 * rep) % 5] if be == "torch" else ["plain", "view_of_big"][(k // 2 + rep) % 2]
+            specs.append({"kind": "history", "backend": be, "up": up, "sclass": sc, "shape": SHAPES[(k + rep) % len(SHAPES)], "dtype": dt, "family": fam, "alias": al})
     ncs = 36 if tier == "quick" else 720
     for r in range(ncs):
         specs.append({"kind": "tomo", "sclass": ["int", "sub"][r % 2], "shape": SHAPES[(r // 2) % len(SHAPES)]})
@@ -242,6 +246,8 @@ def gen_pair(rng, shape, s, family, dtype, bw_max=0.9):
         assert np.all(si == s)
         return im, np.roll(im, (int(si[0]), int(si[1])), axis=(0, 1)), 1.0
     bw = float(rng.uniform(0.5, bw_max))
+    if bw_max >= 0.9 and rng.random() < 0.3:
+        bw = float(rng.uniform(0.85, 0.9))  # wide band (~0.45 cycles/px): the parabolic estimate alone is off by up to ~0.1 px, so 1/up bites for up >= 16
     dc = float(rng.choice([0.0, 1.0, 3.0]))
     im = T.band_limited_image(rng, shape, bw, family, dc)
     return im, T.translate(im, s), bw
@@ -419,6 +425,20 @@ def _run_numpy(spec, idx, ctx, rng, shape, s, im, ref, bw):
     r10 = np.asarray(ccs(b, b, upsample_factor=up, max_shift=float(rng.uniform(0.3, 1.4))), dtype=np.float64)  # only the zero lag (and at most its 4 neighbours) admitted
     j.close("identical_nonzero", _absmax(r10), j.tol0, lambda: "identical images shape=%s, max_shift ~ 1 -> %s" % (shape, r10.tolist()), "max_shift_edge")
 
+    # the same factor / radius passed as every accepted scalar type must give the result obtained with the Python number
+    # (on the unchanged code all of these are bit-identical; np.float32 / 8-bit integer scalars are not generated: the
+    # library's own arithmetic in those types rounds / overflows)
+    for form, val in (("np.int64", np.int64(up)), ("np.int32", np.int32(up)), ("0-d int array", np.array(up)), ("float", float(up)), ("np.float64", np.float64(up)), ("np.intp element", (2 ** np.arange(0, 7))[int(np.log2(up))] if up & (up - 1) == 0 else np.arange(up, up + 1)[0])):
+        rf = np.asarray(ccs(a, b, upsample_factor=val), dtype=np.float64)
+        j.shift(rf, s, shape, "upsample_factor as " + form)
+        j.close("scalar_form_changes_result", _absmax(T.wrap(rf - r, shape)), j.tol0, lambda: "upsample_factor=%r (%s) -> %s, Python int %d -> %s" % (val, form, rf.tolist(), up, r.tolist()), "upsample_factor as " + form)
+    msi = int(np.ceil(ms)) if ms < 1e5 else 1000
+    rm = np.asarray(ccs(a, b, upsample_factor=up, max_shift=msi), dtype=np.float64)
+    j.shift(rm, s, shape, "max_shift as int")
+    for form, val in (("np.int64", np.int64(msi)), ("float", float(msi)), ("np.float64", np.float64(msi)), ("np.float32", np.float32(msi)), ("0-d array", np.array(msi))):
+        rf = np.asarray(ccs(a, b, upsample_factor=up, max_shift=val), dtype=np.float64)
+        j.close("scalar_form_changes_result", _absmax(T.wrap(rf - rm, shape)), j.tol0, lambda: "max_shift=%r (%s) -> %s, Python int %d -> %s" % (val, form, rf.tolist(), msi, rm.tolist()), "max_shift as " + form)
+
     if not (np.array_equal(a, a_keep) and np.array_equal(b, b_keep)):
         ctx.count("observed:estimator_modified_its_inputs")  # not part of the property: recorded, not judged
     return r, d
@@ -446,6 +466,10 @@ def _run_torch(spec, idx, ctx, rng, shape, s, im, ref, bw):
     # Fourier-space entry point
     G1, G2 = torch.fft.fft2(A), torch.fft.fft2(B)
     x = npy(iu.align_images_fourier_torch(G1, G2, up))
+    for form, val in (("np.int64", np.int64(up)), ("np.int32", np.int32(up)), ("float", float(up)), ("np.float64", np.float64(up)), ("0-d tensor", torch.tensor(up))):
+        tf = npy(ccst(A, B, upsample_factor=val))
+        j.shift(tf, s, shape, "upsample_factor as " + form)
+        j.close("scalar_form_changes_result", _absmax(T.wrap(tf - t, shape)), j.tol0, lambda: "upsample_factor=%r (%s) -> %s, Python int %d -> %s" % (val, form, tf.tolist(), up, t.tolist()), "upsample_factor as " + form)
     j.shift(x, s, shape, "fft_input")
     if kind == "int":
         j.close("fft_variant_disagrees", _absmax(T.wrap(x - t, shape)), 2 * j.tol0, lambda: "cross_correlation_shift_torch=%s align_images_fourier_torch=%s" % (t.tolist(), x.tolist()), "fft_input")
@@ -580,7 +604,7 @@ def _run_history(spec, idx, ctx):
     shape2 = gen_shape(rng, SHAPES[(SHAPES.index(spec["shape"]) + 1 + int(rng.integers(len(SHAPES) - 1))) % len(SHAPES)])
     if shape2 == shape:
         shape2 = (shape[0] + 2, shape[1] + 3)
-    j = J(ctx, backend, dtype, up, kind, family=spec["family"], history=True)
+    j = J(ctx, backend, dtype, up, kind, family=spec["family"], history=True, alias=spec.get("alias", ""))
     bw_max = 0.7 if half_pixel_rounding(backend, up, kind) else 0.9
     sclass = {"int": ["int", "int_edge", "int_far"], "sub": ["sub", "sub_far"]}[kind]
 
@@ -590,12 +614,36 @@ def _run_history(spec, idx, ctx):
     def new_image(shp=shape):
         return T.band_limited_image(rng, shp, float(rng.uniform(0.5, bw_max)), spec["family"], float(rng.choice([0.0, 1.0, 3.0])))
 
+    # how the buffers are (re)filled: the estimator may only depend on the *current contents* of its arguments, whichever
+    # way they were written (torch in-place op, write through .data, write through NumPy memory aliased by torch.from_numpy,
+    # buffers that are views of a larger allocation).  Writes through aliased memory do not bump tensor._version.
+    alias = spec.get("alias", "copy_" if backend == "torch" else "plain")
     if backend == "torch":
         tdt = getattr(torch, dtype)
-        ref_buf, mov_buf = torch.empty(shape, dtype=tdt), torch.empty(shape, dtype=tdt)
+        npdt = np.dtype(dtype)
+        backing = {}
+        if alias == "numpy_alias":
+            ref_np, mov_np = np.zeros(shape, dtype=npdt), np.zeros(shape, dtype=npdt)
+            ref_buf, mov_buf = torch.from_numpy(ref_np), torch.from_numpy(mov_np)
+            backing = {id(ref_buf): ref_np, id(mov_buf): mov_np}
+        elif alias == "view_of_big":
+            big_np = np.zeros((3,) + tuple(shape), dtype=npdt)
+            big_t = torch.from_numpy(big_np)
+            ref_buf, mov_buf = big_t[0], big_t[2]  # torch views, kept as the same Python objects for the whole history
+            backing = {id(ref_buf): big_np[0], id(mov_buf): big_np[2]}
+        else:
+            ref_buf, mov_buf = torch.zeros(shape, dtype=tdt), torch.zeros(shape, dtype=tdt)
 
         def fill(buf, arr):
-            buf.copy_(torch.from_numpy(np.ascontiguousarray(arr)).to(buf.dtype))
+            src = torch.from_numpy(np.ascontiguousarray(arr)).to(buf.dtype)
+            if id(buf) in backing:
+                backing[id(buf)][...] = arr  # NumPy write into the aliased memory
+            elif alias == "data_copy":
+                buf.data.copy_(src)
+            elif alias == "data_setitem":
+                buf.data[...] = src
+            else:
+                buf.copy_(src)
 
         def fresh(arr):
             return torch.tensor(np.asarray(arr, dtype=np.float64), dtype=tdt)
@@ -603,9 +651,13 @@ def _run_history(spec, idx, ctx):
         def est(x, y):
             return iu.cross_correlation_shift_torch(x, y, upsample_factor=up).detach().cpu().numpy().astype(np.float64)
 
-        ident = (ref_buf.data_ptr(), mov_buf.data_ptr())
+        ident = (ref_buf.data_ptr(), mov_buf.data_ptr(), id(ref_buf), id(mov_buf))
     else:
-        ref_buf, mov_buf = np.empty(shape, dtype=dtype), np.empty(shape, dtype=dtype)
+        if alias == "view_of_big":
+            big_np = np.zeros((shape[0] + 5, 2 * shape[1] + 3), dtype=dtype)
+            ref_buf, mov_buf = big_np[2 : 2 + shape[0], 1 : 1 + shape[1]], big_np[3 : 3 + shape[0], shape[1] + 2 : 2 * shape[1] + 2]  # non-contiguous views
+        else:
+            ref_buf, mov_buf = np.zeros(shape, dtype=dtype), np.zeros(shape, dtype=dtype)
 
         def fill(buf, arr):
             buf[...] = arr
@@ -616,7 +668,7 @@ def _run_history(spec, idx, ctx):
         def est(x, y):
             return np.asarray(iu.cross_correlation_shift(x, y, upsample_factor=up), dtype=np.float64)
 
-        ident = (ref_buf.ctypes.data, mov_buf.ctypes.data)
+        ident = (ref_buf.ctypes.data, mov_buf.ctypes.data, id(ref_buf), id(mov_buf))
 
     cur_mov = new_image()
     cur_s = new_shift()
@@ -646,10 +698,7 @@ def _run_history(spec, idx, ctx):
         elif mode == "identical":  # reference := moving image (in place): identical images must give zero
             cur_ref = cur_mov.copy()
             cur_s = np.zeros(2)
-            if backend == "torch":
-                ref_buf.copy_(mov_buf)
-            else:
-                ref_buf[...] = mov_buf
+            fill(ref_buf, cur_mov)  # same source array, same cast: bit-identical to the moving buffer
             r0 = est(ref_buf, mov_buf)
             j.close("identical_nonzero", _absmax(r0), j.tol0, lambda: "history %s: reference buffer refilled in place with the moving image -> %s" % (done, r0.tolist()), "history:" + mode)
             continue
@@ -663,11 +712,11 @@ def _run_history(spec, idx, ctx):
             j.shift(est(mov_buf, ref_buf), -cur_s, shape, "history:" + mode, base="history_shift_error")
             continue
         j.shift(est(ref_buf, mov_buf), cur_s, shape, "history:" + mode, base="history_shift_error")
-    now = (ref_buf.data_ptr(), mov_buf.data_ptr()) if backend == "torch" else (ref_buf.ctypes.data, mov_buf.ctypes.data)
+    now = (ref_buf.data_ptr(), mov_buf.data_ptr(), id(ref_buf), id(mov_buf)) if backend == "torch" else (ref_buf.ctypes.data, mov_buf.ctypes.data, id(ref_buf), id(mov_buf))
     if now != ident:
         raise __import__("vf.core", fromlist=["HarnessError"]).HarnessError("history buffers were reallocated: the workload did not reuse storage")
-    ctx.nontrivial(("history", backend, up, kind, spec["shape"], dtype, spec["family"]), True)
-    ctx.observe(shape=list(shape), other_shape=list(shape2), steps=done, last_applied=cur_s.tolist())
+    ctx.nontrivial(("history", backend, up, kind, spec["shape"], dtype, spec["family"], alias), True)
+    ctx.observe(shape=list(shape), other_shape=list(shape2), steps=done, last_applied=cur_s.tolist(), refill=alias)
 
 
 def run_case(spec, idx, ctx):
